@@ -392,7 +392,7 @@ class Job:
             bins['bc'] = nb
         else:
             nb = os.path.join(w, 'native_a')
-            rc, out, _, _ = run(['gcc', '-O1', '-w', '-fwrapv', '-DVERIF_NATIVE', '-DVERIF_ENTRY=' + h.entry] + self.cdefs() + self.cfiles + ['-o', nb], timeout=600)
+            rc, out, _, _ = run(['gcc', '-O1', '-w', '-fwrapv', '-ffunction-sections', '-fdata-sections', '-Wl,--gc-sections', '-DVERIF_NATIVE', '-DVERIF_ENTRY=' + h.entry] + self.cdefs() + self.cfiles + ['-o', nb], timeout=600)
             if rc != 0:
                 raise Inconclusive('native gcc build failed:\n' + out[-3000:])
             bins['bc'] = nb
